@@ -25,6 +25,8 @@
 #include <mutex>
 #include <thread>
 #include <primesieve/Vector.hpp>
+#include <primesieve/calculator.hpp>
+#include <sys/wait.h>
 
 #include <cerrno>
 #include <cstdint>
@@ -1062,6 +1064,195 @@ int streamIterC(std::istream& in)
   return 0;
 }
 
+// --------------------------------------------------------------------------------------------
+// calc: calculator::eval<T>(expression) — the number parser of the command line
+//   op: calc <u64|i32|i64> <hex of the expression bytes> exp=<v:<int>|reject|any>
+// --------------------------------------------------------------------------------------------
+std::string unhex(const std::string& h)
+{
+  std::string out;
+  for (size_t i = 1; i + 1 < h.size(); i += 2)       // h[0] is the marker 'x' (keeps the empty string a token)
+    out.push_back((char) std::stoi(h.substr(i, 2), nullptr, 16));
+  return out;
+}
+
+std::string calcErrClass(const std::string& msg)
+{
+  if (msg.rfind("Syntax error", 0) == 0) return "syntax";
+  if (msg.rfind("Overflow error", 0) == 0) return "overflow";
+  if (msg.rfind("Parser error: division by 0", 0) == 0) return "divZero";
+  return "other";
+}
+
+template <typename T>
+std::string runCalc(const std::string& expr)
+{
+  try
+  {
+    T v = calculator::eval<T>(expr);
+    return "v=" + std::to_string(v);
+  }
+  catch (const calculator::error& e)
+  {
+    return "err=" + calcErrClass(e.what());
+  }
+}
+
+int streamCalc(std::istream& in)
+{
+  std::string line;
+  while (std::getline(in, line))
+  {
+    auto t = split(line);
+    if (t.empty() || t[0][0] == '#')
+      continue;
+    if (t[0] != "calc" || t.size() < 4) { std::cerr << "bad op: " << line << "\n"; return 2; }
+    std::string expr = unhex(t[2]);
+    std::string res;
+    if (t[1] == "u64") res = runCalc<uint64_t>(expr);
+    else if (t[1] == "i32") res = runCalc<int>(expr);
+    else res = runCalc<int64_t>(expr);
+    std::cout << line << " => " << res;
+    const std::string& exp = t[3];
+    if (exp.rfind("exp=v:", 0) == 0)
+    {
+      if (res != "v=" + exp.substr(6))
+        std::cout << " ORACLE-MISMATCH exact value " << exp.substr(6);
+    }
+    else if (exp == "exp=reject" && res.rfind("v=", 0) == 0)
+      std::cout << " ORACLE-MISMATCH the exact value or an intermediate result does not fit / the expression is malformed: must be rejected";
+    std::cout << "\n";
+  }
+  return 0;
+}
+
+// --------------------------------------------------------------------------------------------
+// cli: the primesieve binary (path in $PSV_CLI), argv given as hex of the 0x1f-joined arguments
+//   op: cli <hex> exp=<any|reject|other|sieve:<start>:<stop>:<count mask>:<print kind or ->:<quiet>|nth:<n>:<start>:<quiet>>
+//   observation: rc and the canonical stdout (status / timing / settings lines removed)
+// --------------------------------------------------------------------------------------------
+std::string shellQuote(const std::string& a)
+{
+  std::string q = "'";
+  for (char c : a) { if (c == '\'') q += "'\\''"; else q.push_back(c); }
+  return q + "'";
+}
+
+int streamCli(std::istream& in)
+{
+  const char* bin = getenv("PSV_CLI");
+  if (!bin) { std::cerr << "PSV_CLI not set\n"; return 2; }
+  static const char* labels[6] = { "Primes: ", "Twin primes: ", "Prime triplets: ", "Prime quadruplets: ",
+                                   "Prime quintuplets: ", "Prime sextuplets: " };
+  std::string line;
+  while (std::getline(in, line))
+  {
+    auto t = split(line);
+    if (t.empty() || t[0][0] == '#')
+      continue;
+    if (t[0] != "cli" || t.size() < 3) { std::cerr << "bad op: " << line << "\n"; return 2; }
+    std::string joined = unhex(t[1]);
+    std::vector<std::string> args;
+    {
+      std::string cur;
+      for (char c : joined) { if (c == '\x1f') { args.push_back(cur); cur.clear(); } else cur.push_back(c); }
+      if (!joined.empty()) args.push_back(cur);
+    }
+    std::string cmd = std::string("ASAN_OPTIONS=exitcode=99:detect_leaks=1 UBSAN_OPTIONS=print_stacktrace=1:exitcode=99 ") + shellQuote(bin);
+    for (auto& a : args) cmd += " " + shellQuote(a);
+    cmd += " 2>/dev/null";
+    FILE* f = popen(cmd.c_str(), "r");
+    if (!f) { std::cerr << "popen failed\n"; return 2; }
+    std::string raw;
+    char buf[65536];
+    size_t n;
+    while ((n = fread(buf, 1, sizeof buf, f)) > 0) raw.append(buf, n);
+    int st = pclose(f);
+    int rc = WIFEXITED(st) ? WEXITSTATUS(st) : 128 + (WIFSIGNALED(st) ? WTERMSIG(st) : 0);
+    // canonical stdout
+    std::string text;
+    {
+      std::istringstream is(raw);
+      std::string l;
+      while (std::getline(is, l))
+      {
+        size_t cr = l.rfind('\r');
+        if (cr != std::string::npos) l = l.substr(cr + 1);
+        if (l.empty()) continue;
+        if (l.back() == '%' && l.find_first_not_of("0123456789%") == std::string::npos) continue;
+        if (l.rfind("Seconds: ", 0) == 0 || l.rfind("Sieve size = ", 0) == 0 || l.rfind("Threads = ", 0) == 0) continue;
+        text += l + "\n";
+      }
+    }
+    const std::string& exp = t[2];
+    std::cout << line << " => rc=" << rc;
+    if (exp == "exp=other") { std::cout << " other" << (rc == 0 ? "" : " ORACLE-MISMATCH exit status 0 expected") << "\n"; continue; }
+    size_t lines = std::count(text.begin(), text.end(), '\n');
+    std::string first = "-", last = "-";
+    if (!text.empty())
+    {
+      first = text.substr(0, text.find('\n'));
+      size_t e = text.size() - 1;
+      size_t b = text.rfind('\n', e ? e - 1 : 0);
+      last = (b == std::string::npos || e == 0) ? text.substr(0, e) : text.substr(b + 1, e - b - 1);
+    }
+    for (auto& c : first) if (c == ' ') c = '_';
+    for (auto& c : last) if (c == ' ') c = '_';
+    std::cout << " lines=" << lines << " fnv=" << fnv1a(text) << " first=" << first << " last=" << last;
+    if (rc > 1) std::cout << " ORACLE-MISMATCH the program died (exit status " << rc << ": signal / sanitizer report)";
+    else if (exp == "exp=reject")
+    {
+      if (rc != 1 || !text.empty())
+        std::cout << " ORACLE-MISMATCH this command line must be rejected (message, exit status 1, no result)";
+    }
+    else if (exp.rfind("exp=sieve:", 0) == 0 || exp.rfind("exp=nth:", 0) == 0)
+    {
+      // what the LIBRARY returns for the intended interval / options
+      std::vector<std::string> f2;
+      { std::string cur; for (char c : exp.substr(4)) { if (c == ':') { f2.push_back(cur); cur.clear(); } else cur.push_back(c); } f2.push_back(cur); }
+      std::string want;
+      bool wantErr = false;
+      if (f2[0] == "sieve")
+      {
+        uint64_t a = u64(f2[1]), b = u64(f2[2]);
+        int mask = atoi(f2[3].c_str());
+        bool quiet = f2[5] == "1";
+        if (f2[4] != "-") want += expectedPrint(a, b, atoi(f2[4].c_str()));
+        int cnt = 0;
+        for (int i = 0; i < 6; i++) if (mask & (1 << i)) cnt++;
+        primesieve::set_num_threads(1);
+        for (int i = 0; i < 6; i++)
+          if (mask & (1 << i))
+          {
+            uint64_t c = 0;
+            switch (i)
+            {
+              case 0: c = primesieve::count_primes(a, b); break;
+              case 1: c = primesieve::count_twins(a, b); break;
+              case 2: c = primesieve::count_triplets(a, b); break;
+              case 3: c = primesieve::count_quadruplets(a, b); break;
+              case 4: c = primesieve::count_quintuplets(a, b); break;
+              default: c = primesieve::count_sextuplets(a, b); break;
+            }
+            want += (quiet && cnt == 1 ? std::string() : std::string(labels[i])) + std::to_string(c) + "\n";
+          }
+      }
+      else
+      {
+        long long nn = atoll(f2[1].c_str());
+        uint64_t a = u64(f2[2]);
+        bool quiet = f2[3] == "1";
+        try { uint64_t v = primesieve::nth_prime(nn, a); want = (quiet ? std::string() : std::string("Nth prime: ")) + std::to_string(v) + "\n"; }
+        catch (const std::exception&) { wantErr = true; }
+      }
+      if (wantErr ? (rc != 1 || !text.empty()) : (rc != 0 || text != want))
+        std::cout << " ORACLE-MISMATCH the library gives " << (wantErr ? std::string("an error") : "lines=" + std::to_string(std::count(want.begin(), want.end(), '\n')) + " fnv=" + std::to_string(fnv1a(want)));
+    }
+    std::cout << "\n";
+  }
+  return 0;
+}
+
 } // namespace
 
 int main(int argc, char** argv)
@@ -1097,6 +1288,10 @@ int main(int argc, char** argv)
     return streamMulti(in);
   if (stream == "iterc")
     return streamIterC(in);
+  if (stream == "calc")
+    return streamCalc(in);
+  if (stream == "cli")
+    return streamCli(in);
   std::cerr << "unknown stream " << stream << "\n";
   return 2;
 }
